@@ -99,7 +99,8 @@ func copyInts(a []int) []int {
 // names with the suffix "2") and both are judged by the trace specification.
 func Case(s []byte, k, mink int, pl plan) vt.Ev {
 	ev := vt.Ev{"op": "case", "s": vt.Ints(s), "k": k, "mink": mink, "err": "", "panic": "",
-		"tiny": pl.tiny, "full": pl.full, "sfull": pl.sfull, "sentinel": Sentinel, "ranges": []interface{}{}}
+		"tiny": pl.tiny, "full": pl.full, "sfull": pl.sfull, "sentinel": Sentinel, "ranges": []interface{}{},
+		"s2": []int{}, "ranges2": []interface{}{}}
 	for _, sfx := range []string{"", "2"} {
 		for name, v := range map[string]interface{}{
 			"freqok": false, "freq": [][2]int{}, "freqn": 0, "freqsum": 0, "fq": [][2]int{},
@@ -253,6 +254,27 @@ func Case(s []byte, k, mink int, pl plan) vt.Ev {
 				rs = append(rs, []interface{}{r[0], r[1], vt.ErrStr(e), vis})
 			}
 			ev["ranges"] = rs
+			// the same walk over another sequence than the indexed one: the indexed letters followed by k+3 more
+			// (ForEachKmerOf takes the sequence to walk as an argument; only k comes from the index)
+			if len(pl.ranges) > 0 {
+				s2 := append(append([]byte{}, s...), []byte("gattacagattacagattaca")[:k+3]...)
+				sq2 := linear.NewSeq("s2", alphabet.BytesToLetters(s2), alphabet.DNA)
+				rs2 := []interface{}{}
+				for _, r := range [][2]int{{0, len(s2)}, {len(s) - k, len(s2)}, {len(s) - 1, len(s2)}, {len(s), len(s2)}} {
+					if r[0] < 0 {
+						continue
+					}
+					vis := [][2]int{}
+					var e error
+					note(guard("ForEachKmerOf", func() {
+						e = ki.ForEachKmerOf(sq2, r[0], r[1], func(_ *kmerindex.Index, pos, kmer int) {
+							vis = append(vis, [2]int{pos, kmer})
+						})
+					}))
+					rs2 = append(rs2, []interface{}{r[0], r[1], vt.ErrStr(e), vis})
+				}
+				ev["s2"], ev["ranges2"] = vt.Ints(s2), rs2
+			}
 		}
 
 		if pl.tiny {
